@@ -14,7 +14,7 @@ import Operon.Model.Tmpl
   put <id> <key> <mrnaName|-> <sequence>                    (instance.templates[key] = t)
   strict <id> <0|1>                  (public attribute re-assigned: instance.strict = …)
   filt <id> <set>                    (public attribute re-assigned: instance.filters = builtins + the set's own)
-  render <id> <sequence>             (synthesize on that instance)
+  render <id> <sequence>             (synthesize on that instance)   -> ok <text> <warned names> <names of Protein.variables_bound>
   translate <id> <name>
 -/
 open Operon Operon.Proto Operon.Ribosome Operon.Tmpl
@@ -83,6 +83,15 @@ def parseSet (s : String) : Option (String × List Str) :=
   | _ => none
 
 def showCls (c : Str) : String := String.ofList (c.map Char.ofNat)
+
+/-- `Protein.variables_bound` is the context dict itself: its keys, in order -/
+def showBound (ctx : Ctx) : String := if ctx.isEmpty then "-" else ",".intercalate (ctx.map fun p => encodeCps p.1)
+
+def showResB (ctx : Ctx) : Res → String
+  | .ok (s, w) => joinSp ["ok", encodeCps s, if w.isEmpty then "-" else ",".intercalate (w.map encodeCps), showBound ctx]
+  | .error .value => "raise:ValueError"
+  | .error .recursion => "raise:RecursionError"
+  | .error (.other c) => "raise:" ++ String.ofList (c.map Char.ofNat)
 
 def showRes : Res → String
   | .ok (s, w) => joinSp ["ok", encodeCps s, if w.isEmpty then "-" else ",".intercalate (w.map encodeCps)]
@@ -169,9 +178,9 @@ def renderAll (st : DSt) (inst : Inst) (top : Str) : String :=
      | .error (.other _) => ["raise:filter"]
      | .ok (_, w) => if w.isEmpty then [] else ["warn:any"])
   let obs := if must && (!layersAgree || specAgree == some false)
-    then "LAYER-DIFF " ++ showRes rs ++ " tok=" ++ (match tt with | some x => encodeCps x | none => "raise")
+    then "LAYER-DIFF " ++ showResB st.ctx rs ++ " tok=" ++ (match tt with | some x => encodeCps x | none => "raise")
       ++ " spec=" ++ (match spec with | some (.ok x) => encodeCps x | some (.error _) => "raise" | none => "none")
-    else showRes rs
+    else showResB st.ctx rs
   obs ++ " ## " ++ joinSp tags
 
 /-- dict assignment: an existing key keeps its slot -/
